@@ -10,8 +10,9 @@ import H3.Spec.Framing
       identified fields: `malformed` (H3_FRAME_ERROR), NOT `badSettings` (H3_SETTINGS_ERROR).
     * §7.2.4 / §7.2.4.1 name H3_SETTINGS_ERROR for an identifier that occurs twice and for the
       identifiers reserved from HTTP/2: `badSettings`.
-    * a payload to which both rules apply (a reserved or repeated identifier in a complete entry AND
-      a cut inside a later entry) may be answered with either code (as in reading R-04).
+    * a payload to which both rules apply (a reserved or repeated identifier received in full — in a
+      complete entry or as the identifier of the entry whose value is cut — AND a cut inside an
+      entry) may be answered with either code (as in reading R-04).
 
     `Spec.Framing.classify` / `observe` (used by C03, C04, C07, C14, C01 as well) file all three
     cases under `badSettings`; `observeS` is the same segmentation with the strict classification.
@@ -20,40 +21,58 @@ import H3.Spec.Framing
 namespace H3.Spec.Framing
 open H3.Varint H3.Frame
 
-/-- the complete (identifier, value) entries at the front of a SETTINGS payload, and whether the
-    payload ends inside an entry (fuel: every entry takes at least two bytes) -/
-def entries : Nat → Bytes → List (Nat × Nat) × Bool
-  | 0, _ => ([], true)
+/-- where a SETTINGS payload stops -/
+inductive Cut where
+  /-- after a complete entry (or empty) -/
+  | clean
+  /-- inside an identifier -/
+  | inId
+  /-- after the complete identifier `id`, before the end of its value -/
+  | inValue (id : Nat)
+deriving Repr, DecidableEq
+
+/-- the complete (identifier, value) entries at the front of a SETTINGS payload, and where the
+    payload stops (fuel: every entry takes at least two bytes) -/
+def entries : Nat → Bytes → List (Nat × Nat) × Cut
+  | 0, _ => ([], .inId)
   | fuel+1, p =>
-    if p = [] then ([], false) else
+    if p = [] then ([], .clean) else
     match rfcDecode p with
-    | none => ([], true)
+    | none => ([], .inId)
     | some (id, r1) => match rfcDecode r1 with
-      | none => ([], true)
+      | none => ([], .inValue id)
       | some (v, r2) => ((id, v) :: (entries fuel r2).1, (entries fuel r2).2)
 
 /-- §7.2.4.1 reserved identifier, or a defined identifier twice (R-13) -/
 def badIds (ps : List (Nat × Nat)) : Bool :=
   ps.any (fun e => h2Settings.contains e.1) || hasRepeatedDefined ps
 
+/-- the identifiers received in full: those of the complete entries and the one of an entry whose
+    value is cut (value 0 stands in: `badIds` looks at identifiers only) -/
+def receivedIds (r : List (Nat × Nat) × Cut) : List (Nat × Nat) :=
+  match r.2 with
+  | .inValue id => r.1 ++ [(id, 0)]
+  | _ => r.1
+
 inductive SettingsVerdict where
   /-- a sequence of complete entries, acceptable -/
   | ok
   /-- complete entries, a reserved or repeated defined identifier: H3_SETTINGS_ERROR -/
   | ids
-  /-- ends inside an entry, the complete entries are acceptable: H3_FRAME_ERROR -/
+  /-- ends inside an entry, the identifiers received are acceptable: H3_FRAME_ERROR -/
   | short
-  /-- ends inside an entry after a reserved / repeated defined identifier: either code -/
+  /-- ends inside an entry, and a reserved / repeated defined identifier was received in full
+      (in a complete entry or as the identifier of the cut entry): either code -/
   | shortAndIds
 deriving Repr, DecidableEq
 
 def settingsVerdict (p : Bytes) : SettingsVerdict :=
   let r := entries (p.length + 1) p
-  match r.2, badIds r.1 with
-  | false, false => .ok
-  | false, true => .ids
-  | true, false => .short
-  | true, true => .shortAndIds
+  match r.2 == .clean, badIds (receivedIds r) with
+  | true, false => .ok
+  | true, true => .ids
+  | false, false => .short
+  | false, true => .shortAndIds
 
 /-- `classify`, strict about SETTINGS; `preferIds` chooses between the two applicable rules in the
     overlapping case (the oracle accepts both choices) -/
